@@ -2,6 +2,8 @@ package e3
 
 import (
 	"fmt"
+	"os"
+	"path/filepath"
 	"sort"
 	"strings"
 
@@ -60,6 +62,19 @@ func runKV(c *sim.Ctx) {
 	for c.Step = 1; c.Step <= steps && !c.Failed(); c.Step++ {
 		typ := []kvstorage.Type{kvstorage.TypeTxIDNotes, kvstorage.TypeGeneral}[t.Int("kv-type", 2)]
 		key := fmt.Sprintf("key-%d", t.Int("kv-key", 6))
+		if t.Chance("kv-symlink", 1, 10) {
+			// a rare but legal layout: the operator keeps a storage file in another folder (a synced one, say) and
+			// leaves a symbolic link in the storage directory
+			fn := filepath.Join(dir, string(typ)+".json")
+			if st, err := os.Lstat(fn); err == nil && st.Mode().IsRegular() {
+				ldir := c.Dir + "/kvlinked"
+				_ = os.MkdirAll(ldir, 0o700)
+				target := filepath.Join(ldir, fmt.Sprintf("%s-%d.json", typ, c.Step))
+				if os.Rename(fn, target) == nil && os.Symlink(target, fn) == nil {
+					c.Count("probe.kv_file_behind_symlink")
+				}
+			}
+		}
 		diskBefore := fs.snap()
 		fs.begin(0, 0)
 		var label string
